@@ -242,6 +242,64 @@ def h_datetime(sel: int, delta: int, form: str, tz: str) -> None:
     reached()
 
 
+def h_multidb_bound(tid: bytes, form: str) -> None:
+    """Multi-database: the connection to a second database obtained from a historical connection
+    (get_connection) shows that database exactly as of the SAME bound."""
+    assume(len(tid) == 8)
+    with untraced():
+        from ZODB.POSException import POSKeyError
+        from zverif import multidb
+        from zverif.symenv.containers import AssocDict
+        w = multidb.Multi('file')
+        # interleaved history: the databases draw their transaction ids from one (scripted) clock
+        for k in range(3):
+            w.c2.root()['doc%d' % (k % 2)] = pobj.PObj(v=k)
+            w.tm.commit()
+            w.c1.root()['mark'] = k
+            w.tm.commit()
+        w.c2.root()['doc0'].v = 'newest'
+        w.tm.commit()
+        m1 = GR.model_from_storage(w.s['one'])
+        m2 = GR.model_from_storage(w.s['two'])
+        last1 = m1.last_tid()
+        real_ts = DBM.TimeStamp
+        DBM.TimeStamp = RawTS
+        for d in w.db.values():
+            d.historical_pool.pools = AssocDict()
+    try:
+        if form == 'before':
+            bound = tid
+            kw = dict(before=tid)
+        else:
+            assume(tid < b'\xff' * 8)
+            bound = succ(tid)
+            kw = dict(at=tid)
+        assume(bound <= succ(last1))                 # legal for the primary (future bounds: harness bound)
+        assume(bound > m1.txns[0].tid)               # the primary's root exists
+        hc = w.db['one'].open(w.transaction.TransactionManager(), **kw)
+        sec = hc.get_connection('two')
+        with untraced():
+            oids = m2.oids()
+        for o in oids:
+            try:
+                got = sec._storage.load(o)
+            except POSKeyError:
+                got = None
+            try:
+                x = m2.load_before(o, bound)
+                want = None if x is None else x[:2]
+            except NoKey:
+                want = None
+            check(got == want, 'secondary connection of a historical connection does not show the state at the same bound', o, got, want)
+    finally:
+        with untraced():
+            DBM.TimeStamp = real_ts
+            for d in w.db.values():
+                d.historical_pool.pools = {}
+            w.close_all()
+    reached()
+
+
 HARNESSES = [
     Harness('bound', h_bound,
             decides='a connection opened at/before any 8-byte point shows every object exactly as the history had it at that '
@@ -253,6 +311,14 @@ HARNESSES = [
                   '(ReadOnlyHistoryError)', 'FileStorage.loadBefore'],
             quick=dict(timeout=170, shards=shards(form=['before', 'at'], live_commit=[True])),
             thorough=dict(timeout=900, shards=shards(form=['before', 'at'], live_commit=[True, False]))),
+    Harness('multidb_bound', h_multidb_bound,
+            decides='in a multi-database the connection to another database obtained from a historical connection shows every '
+                    'object of that database exactly as of the same 8-byte bound (given as at= or before=)',
+            symbolic='tid (8 free bytes)', bounds='2 databases, 3+4 interleaved transactions; bound within the primary\'s history',
+            oracle='RevStore state of the second database at the bound',
+            code=['Connection.get_connection', 'DB.open', 'DB.getTID', 'HistoricalStorageAdapter.load', 'FileStorage.loadBefore'],
+            quick=dict(timeout=150, shards=shards(form=['before', 'at'])),
+            thorough=dict(timeout=600, shards=shards(form=['before', 'at']))),
     Harness('datetime', h_datetime,
             decides='datetime forms of at/before around every instant of the history select the same states',
             symbolic='selector over transactions, microsecond offset selector (-3, 0, +3 us); naive / aware (+05:30) / aware (-07:00) datetimes are shards',
